@@ -596,6 +596,9 @@ pub fn build() -> Vec<DynType> {
          Vec<(u64,)>, Vec<NewT>, Vec<ArcS>);
     // large type tables, back-tracking shapes
     reg!(v; Wide, Vec<Wide>, (Wide, Option<Wide>), BtA, BtB, BtC, BtD, Vec<BtA>, Vec<BtB>, SmallCfg, WideCfg, Option<SmallCfg>, Option<WideCfg>, Vec<Option<SmallCfg>>, Vec<Option<WideCfg>>);
+    // round-2 strengthening: reserved before variants, asymmetric trees, knotted optional field, non-ASCII method names
+    reg!(v; (Reserved, E1), (Reserved, E2), (Reserved, Result<Nat, String>), Vec<(Reserved, Option<E2>)>, BTreeMap<Reserved, E2>, RsvE, RsvR, Vec<RsvE>, (Reserved, Option<E1>, u8),
+         NatTree, IntTree, Vec<NatTree>, Option<IntTree>, OldList, NewList, Vec<OldList>, (OldList, u8), ServRefU, Vec<ServRefU>, Option<ServRefU>);
     // names must be unique
     let mut seen = BTreeSet::new();
     v.retain(|d| seen.insert(d.name.clone()));
